@@ -15,8 +15,9 @@ func init() {
 		Level: "fault_enumeration",
 		Rule: "one case = (forest, branch strings, walk form: callback from Markdown / callback from root / iterator from root). The fault-free walk is compared with the text output of the same call family and with the model; " +
 			"then the callback failure (callback forms) or the consumer's break (iterator form) is injected at EVERY visit index 0..n-1 - exhaustive per case. The iterator form runs under the simulator so that an iter.Pull coroutine that is not finished shows up as an unfinished goroutine at the end of the bubble. " +
-			"Evaluations count single walks. non-trivial = forest with at least 3 nodes and an injected stop that fired; distinct = different (forest, options, form, stop index) hash",
+			"In addition every run enumerates EXHAUSTIVELY all ordered forests with up to 6 (thorough: 7) nodes x 2 namings x 3 branch-string sets x the walk forms x every stop index (breakdown: exhaustive.*). Evaluations count single walks. non-trivial = forest with at least 3 nodes and an injected stop that fired; distinct = different (forest, options, form, stop index) hash",
 		Case:  caseC05,
+		Exhaustive: exhaustiveC05,
 		Real:  []string{"gtree + gtree/markdown (instrumented copy of /repo working tree): simple-mode walkers, growers, iter.Pull2 coroutines"},
 		Stubs: []string{"walk callback failing at visit k", "iterator consumer breaking at visit k", "scheduler/bubble (iterator form: coroutine clean-up)"},
 	})
@@ -108,6 +109,13 @@ func caseC05(c *Ctx) {
 			c.st.Count("md-with-level-jump")
 		}
 	}
+	errVariant := c.Draw(5)
+	c05Check(c, form, forest, branch, op, doc, levelJump, errVariant, true)
+}
+
+// c05Check applies C05's oracles to one (forest, options, form): the fault-free walk and a
+// stop at every visit index.
+func c05Check(c *Ctx, form string, forest []*MNode, branch []string, op Op, doc []byte, levelJump bool, errVariant int, deferred bool) {
 	c.Scenario["form"] = form
 	c.Scenario["op"] = op.String()
 	c.Scenario["forest"] = forestString(forest)
@@ -117,7 +125,6 @@ func caseC05(c *Ctx) {
 	for _, r := range forest {
 		nNodes += r.Count()
 	}
-	errVariant := c.Draw(5)
 	mk := func(failAt int) *Env {
 		e := &Env{Doc: doc, Reader: noReaderFault, Writer: noWriterFault, Cb: CbPlan{FailAt: failAt, ErrVariant: errVariant}}
 		if op.FromRoot {
@@ -240,7 +247,7 @@ func caseC05(c *Ctx) {
 		}
 	}
 	c.st.Sample(form, map[string]any{"form": form, "op": op.String(), "forest": forestString(forest), "stop_indices_enumerated": len(ks)})
-	if op.Kind == "walkiter" {
+	if op.Kind == "walkiter" && deferred {
 		c05Deferred(c, forest[0], branch, op.Alias)
 	}
 }
@@ -317,4 +324,92 @@ func c05Deferred(c *Ctx, model *MNode, branch []string, alias bool) {
 			}
 		}
 	}
+}
+
+// ---- C05: every small forest -------------------------------------------------------------------------
+
+// enumForests returns all ordered forests with exactly n nodes (shape only).
+func enumForests(n int) [][]*MNode {
+	if n == 0 {
+		return [][]*MNode{nil}
+	}
+	var out [][]*MNode
+	// first tree has k nodes (root + forest of k-1 nodes as children), the rest is a forest of n-k
+	for k := 1; k <= n; k++ {
+		for _, kids := range enumForests(k - 1) {
+			for _, rest := range enumForests(n - k) {
+				t := &MNode{Kids: cloneForest(kids)}
+				out = append(out, append([]*MNode{t}, cloneForest(rest)...))
+			}
+		}
+	}
+	return out
+}
+
+func cloneForest(f []*MNode) []*MNode {
+	out := make([]*MNode, len(f))
+	for i, t := range f {
+		out[i] = t.Clone()
+	}
+	return out
+}
+
+// exhaustiveC05: all ordered forests with up to N nodes (N = 6 quick, 7 thorough), sibling
+// names a, b, c, ... in order (so that they are distinct) or all roots named alike, three
+// branch-string sets, the three walk forms, and a stop at every visit index.
+func exhaustiveC05(c *Ctx, part, parts int) {
+	N := 6
+	if *fTier == "thorough" {
+		N = 7
+	}
+	only, fixed := c.Param("point")
+	idx := -1
+	checked := 0
+	forms := []string{"callback/md", "callback/root", "iter/root"}
+	bsets := [][]string{nil, branchSets[1], branchSets[5]}
+	for n := 1; n <= N; n++ {
+		for _, shape := range enumForests(n) {
+			for naming := 0; naming < 2; naming++ {
+				for fi, form := range forms {
+					if form != "callback/md" && len(shape) != 1 {
+						continue
+					}
+					for bi, branch := range bsets {
+						idx++
+						if fixed {
+							if idx != only {
+								continue
+							}
+						} else if idx%parts != part {
+							continue
+						}
+						forest := cloneForest(shape)
+						var name func(ns []*MNode, depth int)
+						name = func(ns []*MNode, depth int) {
+							for i, t := range ns {
+								t.Name = string(rune('a' + i))
+								if naming == 1 && depth == 0 {
+									t.Name = "r" // equally named roots are separate roots
+								}
+								name(t.Kids, depth+1)
+							}
+						}
+						name(forest, 0)
+						op := Op{Kind: "walk", Branch: branch}
+						switch form {
+						case "callback/root":
+							op.FromRoot = true
+						case "iter/root":
+							op.Kind, op.FromRoot = "walkiter", true
+						}
+						c.SetParam("point", idx)
+						c05Check(c, form, forest, branch, op, canonicalDoc(forest), false, fi+bi, false)
+						checked++
+					}
+				}
+			}
+		}
+	}
+	c.st.Add("exhaustive.points-checked", checked)
+	c.st.Sample("exhaustive", map[string]any{"exhaustive_arm": "all ordered forests with <= N nodes x 2 namings x 3 branch sets x walk forms x every stop index", "N": N})
 }
